@@ -218,6 +218,34 @@ pub fn run(ctx: &Ctx) -> Report {
     rep.absorb(par_cases(&sp, |p, l| judge_src(&p.render(), "scope-parent-directed", None, &budgets, l)));
     let lb = c02::late_bool_progs();
     rep.absorb(par_cases(&lb, |p, l| judge_src(&p.render(), "late-boolean-directed", None, &budgets, l)));
+    // user functions whose body reads the current address: a call with literal arguments is not a statically known value
+    {
+        let head = "#fn rel(a) => a - $\n#fn here() => $\n#ruledef\n{\n    nop => 0x00\n    ld {a} => { assert(a < 5), 0x11 }\n    ld {a} => 0x1104\n    br {a} => 0x40 @ rel(a)`8\n    jmp {a: u8} => 0xc0 @ a\n    pad {n} => n > 0 ? 0x0000 : 0x00\n    at => 0x70 @ here()`8\n}\n";
+        let alpha = ["ld far", "br 0x10", "jmp here()", "pad far", "#d8 rel(0x20)", "k1 = here()\n#d8 k1", "nop", "at"];
+        let ka = alpha.len() as u64;
+        let maxlen = if ctx.thorough { 4 } else { 3 };
+        let per = seq_count(ka, maxlen);
+        rep.absorb(par_run(per * (maxlen as u64 + 1), |i, l| {
+            let d = decode(i, &[per, maxlen as u64 + 1]);
+            let seq = seq_decode(d[0], ka, maxlen);
+            let lp = d[1] as usize;
+            if lp > seq.len() || seq.is_empty() {
+                return;
+            }
+            let mut src = head.to_string();
+            for (k, x) in seq.iter().enumerate() {
+                if k == lp {
+                    src += "far:\n";
+                }
+                src += alpha[*x];
+                src += "\n";
+            }
+            if lp == seq.len() {
+                src += "far:\n";
+            }
+            judge_src(&src, "function-reading-the-address", None, &budgets, l);
+        }));
+    }
     // constants whose value comes from a file: flagged as statically known, yet not available before the first full pass
     // when they are declared after their use
     {
